@@ -390,6 +390,8 @@ func echo(n *Nodis, conn *redis.Conn, cmd redis.Command) {
 func quit(n *Nodis, conn *redis.Conn, cmd redis.Command) {
 	execCommand(conn, func() {
 		conn.WriteOK()
+		// the reply has to leave before the socket goes: the flush after the handler would find it closed
+		_ = conn.Flush()
 		conn.Network.Close()
 	})
 }
